@@ -1137,7 +1137,8 @@ fn render(t: &T, rng: &mut Rng, extra: bool) -> String {
             // a unary operator as right operand is parsed whole, as left operand it must bind tighter
             let ls = child(l, level(l) < p, rng);
             let need_r = match **r {
-                T::Neg(_) => false,
+                // a following operator binds at most as tightly as p; unary minus (12) captures only `^`
+                T::Neg(_) => p == 13,
                 _ => level(r) <= p,
             };
             let rs = child(r, need_r, rng);
